@@ -74,6 +74,7 @@ class Exec:
         from kyupy.circuit import Circuit
         self.res = res
         self.c = Circuit('h')
+        self.name_set = False
         self.dup_io = False
         self.m = RefGraph()
         self.names = 0
@@ -94,6 +95,9 @@ class Exec:
         from kyupy import bench
         res, m, c = self.res, self.m, self.c
         kind, a, b, cc, d, e = op
+        if not self.name_set:
+            self.name_set = True
+            c.name = [None, 'h', 5, 'top module', ''][e % 5]      # the circuit's name is free-form (parsers set a file name, None is the default)
         keys = sorted(m.nodes, key=lambda kk: m.nodes[kk]['seq'])
         did = None
         if kind in ('node', 'fork'):
@@ -231,7 +235,7 @@ class Exec:
             self.hole = True
             did = f'substitute({key[0]}, {text[:60]})'
         elif kind in ('copy', 'restore'):
-            new = graphsim.restore(c, 'copy' if kind == 'copy' else 'pickle', res)
+            new = graphsim.restore(c, 'copy' if kind == 'copy' else ['pickle', 'pickle', 'pickle0', 'pickle2', 'deepcopy'][a % 5], res)
             try:
                 same = (new == c)
             except Exception as ex:  # noqa
